@@ -66,6 +66,9 @@ def ofList (l : List (Nat × ν)) : NMap ν := l.foldl (fun m p => insert p.1 p.
 
 def keys (m : NMap ν) : List Nat := m.map (·.1)
 
+/-- apply `f` to every value (keys unchanged) -/
+def mapVal {μ : Type} (f : ν → μ) (m : NMap ν) : NMap μ := m.map (fun p => (p.1, f p.2))
+
 end NMap
 
 /-- combine two optional values -/
